@@ -429,6 +429,7 @@ func init() {
 		"(*github.com/puzpuzpuz/xsync/v3.MapOf).Load":          xsyncLoad,
 		"(*github.com/puzpuzpuz/xsync/v3.MapOf).Delete":        xsyncDelete,
 		"(*github.com/puzpuzpuz/xsync/v3.MapOf).Size":          xsyncSize,
+		"(*github.com/puzpuzpuz/xsync/v3.MapOf).Range":         xsyncRange,
 		"(*golang.org/x/time/rate.Limiter).AllowN": func(e *Engine, s *State, f *Frame, fn *ssa.Function, args []Value, retIdx int, advance bool) (Value, bool) {
 			// token-bucket arithmetic (float64, wall clock) is outside the encoding: any verdict
 			k := "rate:" + ptrKey(args[0].(*Pointer))
@@ -834,6 +835,40 @@ func xsyncDelete(e *Engine, s *State, f *Frame, fn *ssa.Function, args []Value, 
 		}
 	}
 	return nil, true
+}
+
+type rangeIter struct {
+	entries []MapEntry
+	i       int
+}
+
+// Range: the callback sees a snapshot of the entries present when Range started (xsync documents that the
+// iteration may or may not reflect concurrent modifications); deleting inside the callback is allowed.
+func xsyncRange(e *Engine, s *State, f *Frame, fn *ssa.Function, args []Value, retIdx int, advance bool) (Value, bool) {
+	p := args[0].(*Pointer)
+	if p.IsNil() {
+		e.fail(s, "panic", "nil xsync.MapOf")
+	}
+	var it *rangeIter
+	if f.contPhase == 2 && f.contIP == f.ip {
+		prev := f.contData.(*rangeIter)
+		goOn := e.cond(s, f.scratch.(*Term))
+		if !goOn {
+			f.contPhase, f.contData, f.scratch = 0, nil, nil
+			return nil, true
+		}
+		it = &rangeIter{entries: prev.entries, i: prev.i + 1}
+	} else {
+		it = &rangeIter{entries: s.obj(p.Obj).Val.(*MapObj).Entries}
+	}
+	if it.i >= len(it.entries) {
+		f.contPhase, f.contData, f.scratch = 0, nil, nil
+		return nil, true
+	}
+	f.contPhase, f.contIP, f.contData, f.scratch = 2, f.ip, it, nil
+	en := it.entries[it.i]
+	e.pushCall(s, f, args[1].(*FuncV), []Value{en.K, en.V}, -2, false)
+	return tailCall, true
 }
 
 func xsyncSize(e *Engine, s *State, f *Frame, fn *ssa.Function, args []Value, retIdx int, advance bool) (Value, bool) {
